@@ -785,24 +785,104 @@ class ExcelInPython:
         return '#N/A'
 
 
-    def _search(self, find_text: str, within_text: str, start_num: int | None):
-        start_num = start_num if start_num else 1
-        if start_num and (start_num > len(within_text) or start_num <= 0):
-            return '#VALUE!'
-
+    @staticmethod
+    def _wildcard_pattern(text: str) -> str:
         # ? stands for one character, * for any run of characters, ~? ~* ~~ for the character itself;
-        # every other character of find_text (regex specials included) stands for itself; case does not matter
+        # every other character (regex specials included) stands for itself
         pattern, index = '', 0
-        while index < len(find_text):
-            char = find_text[index]
-            if char == '~' and index + 1 < len(find_text) and find_text[index + 1] in '?*~':
-                pattern += re.escape(find_text[index + 1])
+        while index < len(text):
+            char = text[index]
+            if char == '~' and index + 1 < len(text) and text[index + 1] in '?*~':
+                pattern += re.escape(text[index + 1])
                 index += 2
                 continue
             pattern += '.' if char == '?' else '.*' if char == '*' else re.escape(char)
             index += 1
 
-        found = re.compile(pattern, re.IGNORECASE | re.DOTALL).search(within_text, start_num - 1)
+        return pattern
+
+    @staticmethod
+    def _criterion_number(text: Any) -> int | float | None:
+        # the number a criterion text (or a numeric-looking cell text) denotes, None when it is not a number
+        if not isinstance(text, str):
+            return None
+
+        try:
+            return int(text.strip())
+        except ValueError:
+            pass
+
+        try:
+            number = float(text.strip())
+        except ValueError:
+            return None
+
+        return number if number == number and number not in (float('inf'), float('-inf')) else None
+
+    def _criterion(self, criterion: Any) -> Callable:
+        """
+        Turns the value of a criterion argument of SUMIF, SUMIFS, COUNTIFS, AVERAGEIFS into a function that tells
+        whether a cell meets it. A plain value means equality. A text may start with = <> > >= < <= followed by a
+        number, a date or a text. Texts are compared without regard to case, and ? * ~ in them are wildcards that
+        have to match the whole cell. A cell of another kind than the criterion never meets it (and always meets <>).
+        """
+        operator, value = '==', criterion
+        if isinstance(criterion, str):
+            found = re.match(r'^(>=|<=|<>|>|<|=)(.*)$', criterion, re.DOTALL)
+            if found:
+                operator, value = found.group(1), found.group(2)
+                operator = '==' if operator == '=' else '!=' if operator == '<>' else operator
+
+            number = self._criterion_number(value)
+            if number is not None:
+                value = number
+            elif any(char.isdigit() for char in value) and self._parse_date_obj(value):
+                value = self._parse_date_obj(value)
+
+        def is_number(item):
+            return isinstance(item, (int, float)) and not isinstance(item, bool)
+
+        def meets(cell):
+            if isinstance(cell, datetime.date) and not isinstance(cell, datetime.datetime):
+                cell = datetime.datetime(cell.year, cell.month, cell.day)
+
+            if is_number(value):
+                if isinstance(cell, self.EmptyCell):
+                    cell = 0
+                if is_number(cell):
+                    comparable = cell
+                else:
+                    comparable = self._criterion_number(cell) if operator in ('==', '!=') else None
+            elif isinstance(value, datetime.datetime):
+                if isinstance(cell, datetime.datetime):
+                    comparable = cell
+                else:
+                    looks_like_date = isinstance(cell, str) and any(char.isdigit() for char in cell)
+                    comparable = self._parse_date_obj(cell) if looks_like_date else None
+            elif isinstance(value, str):
+                if not isinstance(cell, str):
+                    return operator == '!='
+                if operator in ('==', '!='):
+                    hit = re.fullmatch(self._wildcard_pattern(value), cell, re.IGNORECASE | re.DOTALL) is not None
+                    return hit if operator == '==' else not hit
+                return self._by_operator(operator, cell.lower(), value.lower())
+            else:
+                comparable = cell if type(cell) is type(value) or isinstance(value, self.EmptyCell) else None
+
+            if comparable is None:
+                return operator == '!='
+
+            return self._by_operator(operator, comparable, value)
+
+        return meets
+
+    def _search(self, find_text: str, within_text: str, start_num: int | None):
+        start_num = start_num if start_num else 1
+        if start_num and (start_num > len(within_text) or start_num <= 0):
+            return '#VALUE!'
+
+        # ? * ~ in find_text are wildcards, every other character stands for itself; case does not matter
+        found = re.compile(self._wildcard_pattern(find_text), re.IGNORECASE | re.DOTALL).search(within_text, start_num - 1)
 
         return found.start() + 1 if found else '#VALUE!'
 
